@@ -30,6 +30,9 @@ LEAN_TARGETS = [
     "QcelVerif.Props.C15", "QcelVerif.Props.C15Formula", "QcelVerif.Props.C15Nre",
     "QcelVerif.Lemmas.FormulaStr", "QcelVerif.Props.C15FormulaStr", "QcelVerif.Props.C15Symbols", "QcelVerif.Props.C15Frag",
     "QcelVerif.Driver.C15",
+    # regex tie (generic engine on the ASTs generated from molecular_formula.py)
+    "QcelVerif.Model.RegexFindall", "QcelVerif.Lemmas.RegexFindall", "QcelVerif.Gen.FormulaRegex", "QcelVerif.Model.FormulaRe",
+    "QcelVerif.Lemmas.FormulaRe", "QcelVerif.Props.C15Regex",
 ]
 DRIVER = "QcelVerif/Driver/C15.lean"
 
@@ -40,7 +43,167 @@ def regen_periodic_table(ctx=None):
     gen_periodic.gen_pt()
 
 
-TRANSLATORS = [regen_periodic_table]
+class TieBroken(Exception):
+    """the source no longer has the shape the Lean model transcribes"""
+
+
+# The body of order_molecular_formula that Model/FormulaRe.lean transcribes statement by statement.  Holes:
+#   __STR_x__  any str literal (bound to x)      __INT_x__  any int literal (bound to x; the same name must bind the same value)
+#   __ANY__    any expression (the error message, the default of `order` — the latter is ConstTieC15's business)
+FORMULA_TEMPLATE = '''
+def order_molecular_formula(formula: str, order: str = __ANY__) -> str:
+    matches = re.findall(__STR_cut__, formula)
+    if not "".join(matches) == formula:
+        raise ValueError(__ANY__)
+    count: Dict[str, int] = collections.defaultdict(int)
+    for match in matches:
+        match_n = re.match(__STR_split__, match)
+        assert match_n
+        if match_n.group(__INT_count__) == "":
+            n = 1
+        else:
+            n = int(match_n.group(__INT_count__))
+        count[match_n.group(__INT_name__)] += n
+    symbols = [k for k, v in count.items() for i in range(v)]
+    return molecular_formula_from_symbols(symbols=symbols, order=order)
+'''
+
+# patterns NOT from the source: they exercise the empty-match rule / laziness / alternation of the engine's findall against
+# CPython's on every run (the two formula patterns can never match the empty string, so they alone would leave that rule untested)
+FINDALL_PROBES = [r"x*", r"x*?", r"\d*|[a-z]", r"a|", r"\b", r"(?:ab)*?", r"[A-Z][a-z]?", r"(\D+?)(\d*)", r"(a)|b", r"\w+|", r"(x*)y?"]
+
+
+def _ast_match(t, s, binds, path="body"):
+    """structural equality of template node `t` and source node `s`, with holes"""
+    import ast
+
+    if isinstance(t, ast.Name) and t.id.startswith("__") and t.id.endswith("__"):
+        hole = t.id.strip("_")
+        if hole == "ANY":
+            return
+        kind, _, name = hole.partition("_")
+        want = {"STR": str, "INT": int}[kind]
+        if not (isinstance(s, ast.Constant) and type(s.value) is want):
+            raise TieBroken(f"{path}: expected a {want.__name__} literal, found {ast.dump(s) if isinstance(s, ast.AST) else s!r}")
+        if name in binds and binds[name][0] != s.value:
+            raise TieBroken(f"{path}: `{name}` is {binds[name][0]!r} at line {binds[name][1]} but {s.value!r} at line {s.lineno}")
+        binds.setdefault(name, (s.value, s.lineno))
+        return
+    if type(t) is not type(s):
+        raise TieBroken(f"{path}: expected {type(t).__name__}, found {type(s).__name__}"
+                        + (f" at line {s.lineno}" if hasattr(s, "lineno") else ""))
+    if isinstance(t, ast.AST):
+        for f in t._fields:
+            if f in ("type_comment", "kind"):
+                continue
+            _ast_match(getattr(t, f, None), getattr(s, f, None), binds, f"{path}.{type(t).__name__}.{f}")
+    elif isinstance(t, list):
+        if len(t) != len(s):
+            raise TieBroken(f"{path}: {len(s)} item(s) where the modelled code has {len(t)}")
+        for i, (a, b) in enumerate(zip(t, s)):
+            _ast_match(a, b, binds, f"{path}[{i}]")
+    elif t != s:
+        raise TieBroken(f"{path}: {s!r} where the modelled code has {t!r}")
+
+
+def formula_regex_site():
+    """-> {'cut': pattern, 'split': pattern, 'name': group number, 'count': group number, 'lines': {...}} read from
+    qcelemental/molutil/molecular_formula.py of the tree under check by `ast`; raises TieBroken on any other shape of
+    order_molecular_formula (entry points re.findall / re.match, the join test, the assert, the groups read, the dict fold)."""
+    import ast
+
+    src = (common.REPO / "qcelemental/molutil/molecular_formula.py").read_text()
+    tree = ast.parse(src)
+    # `re` must be the standard library module, bound once by a plain `import re`
+    bound = []
+    for n in ast.walk(tree):
+        if isinstance(n, ast.Import):
+            bound += [(a.asname or a.name.split(".")[0], a.name) for a in n.names]
+        elif isinstance(n, ast.ImportFrom):
+            bound += [(a.asname or a.name, f"{n.module}.{a.name}") for a in n.names]
+        elif isinstance(n, (ast.Assign, ast.AnnAssign, ast.AugAssign)):
+            for tg in (n.targets if isinstance(n, ast.Assign) else [n.target]):
+                bound += [(x.id, "<assignment>") for x in ast.walk(tg) if isinstance(x, ast.Name)]
+        elif isinstance(n, (ast.FunctionDef, ast.ClassDef)):
+            bound.append((n.name, "<def>"))
+            if isinstance(n, ast.FunctionDef):
+                bound += [(a.arg, "<parameter>") for a in n.args.args + n.args.kwonlyargs + n.args.posonlyargs]
+    for nm, want in (("re", "re"), ("collections", "collections")):
+        if [b for b in bound if b[0] == nm] != [(nm, want)]:
+            raise TieBroken(f"molecular_formula.py: the name `{nm}` is not bound exactly once by `import {want}`: {[b for b in bound if b[0] == nm]}")
+    fns = [f for f in tree.body if isinstance(f, ast.FunctionDef) and f.name == "order_molecular_formula"]
+    if len(fns) != 1:
+        raise TieBroken(f"expected exactly one module-level order_molecular_formula, found {len(fns)}")
+    fn = fns[0]
+    if fn.decorator_list:
+        raise TieBroken("order_molecular_formula is decorated")
+    body = list(fn.body)
+    if body and isinstance(body[0], ast.Expr) and isinstance(body[0].value, ast.Constant) and isinstance(body[0].value.value, str):
+        body = body[1:]  # docstring
+    tfn = ast.parse(FORMULA_TEMPLATE).body[0]
+    binds = {}
+    _ast_match(tfn.args, fn.args, binds, "order_molecular_formula.args")
+    _ast_match(tfn.body, body, binds, "order_molecular_formula.body")
+    return {"cut": binds["cut"][0], "split": binds["split"][0], "name": binds["name"][0], "count": binds["count"][0],
+            "lines": {k: v[1] for k, v in binds.items()}}
+
+
+def gen_formula_regex(ctx=None):
+    """lean/QcelVerif/Gen/FormulaRegex.lean <- the two patterns of order_molecular_formula (molecular_formula.py), how they are
+    used (re.findall / re.match) and which groups are read, through harness/regex_gen.py (CPython's own parse tree)."""
+    import regex_gen
+
+    site = formula_regex_site()
+    try:
+        trc = regex_gen.translate(site["cut"], 0)
+        trs = regex_gen.translate(site["split"], 0)
+        probes = [regex_gen.translate(p, 0) for p in FINDALL_PROBES]
+    except regex_gen.Unsupported as e:
+        raise TieBroken(f"pattern not translatable: {e}")
+    if trc.ngroups != 0:
+        raise TieBroken(f"the findall pattern {site['cut']!r} has capturing groups: re.findall would return the groups, the model takes whole matches")
+    for k in ("name", "count"):
+        if not (1 <= site[k] <= trs.ngroups):
+            raise TieBroken(f"match_n.group({site[k]}) is read but {site['split']!r} defines groups 1..{trs.ngroups} (group 0 is not modelled)")
+    ln = site["lines"]
+    lines = [
+        "import QcelVerif.Model.RegexFindall",
+        "/-! GENERATED by harness/c15.py:gen_formula_regex from qcelemental/molutil/molecular_formula.py, function",
+        f"order_molecular_formula: `re.findall(<cut>, formula)` (line {ln['cut']}), `re.match(<split>, match)` (line {ln['split']}),",
+        f"`match_n.group({site['count']})` read as the count (line {ln['count']}), `match_n.group({site['name']})` as the dict key (line {ln['name']});",
+        "the whole function body was compared with the transcribed shape (harness/c15.py:FORMULA_TEMPLATE) — do not edit.",
+        "Each term is CPython's own parse tree (`re._parser.parse`, no flags) re-encoded constructor by constructor;",
+        "`\\d` / `\\D` are the ASCII parts of the Unicode categories.  `probes` are NOT from the source (engine-vs-CPython test patterns). -/",
+        "namespace QcelVerif.Gen.FormulaRegex",
+        "open QcelVerif.Regex",
+        "",
+    ]
+    lines += regex_gen.lean_defs("cut", trc, f"`{site['cut']}` (molecular_formula.py:{ln['cut']}), used through re.findall")
+    lines += regex_gen.lean_defs("split", trs, f"`{site['split']}` (molecular_formula.py:{ln['split']}), used through re.match")
+    lines += [
+        "/-- the pattern texts (ASCII bytes), for the record -/",
+        f"def cutPattern : List Nat := {regex_gen.bytes_lit(site['cut'])}",
+        f"def splitPattern : List Nat := {regex_gen.bytes_lit(site['split'])}",
+        "/-- entry points at the call sites -/",
+        "def cutEntry : Entry := .findall",
+        "def splitEntry : Entry := .match",
+        "/-- `count[match_n.group(nameGroup)] += n`, `n` read from `match_n.group(countGroup)` -/",
+        f"def nameGroup : Nat := {site['name']}",
+        f"def countGroup : Nat := {site['count']}",
+        "",
+        "/-- test patterns for the engine's findall (not from the source): (pattern, number of groups) -/",
+        "def probes : List (Re × Nat) := [",
+    ]
+    lines += [f"  -- {i}: {p}\n  ({tr.term}, {tr.ngroups})" + ("," if i + 1 < len(probes) else "") for i, (p, tr) in enumerate(zip(FINDALL_PROBES, probes))]
+    lines += ["]", "", "end QcelVerif.Gen.FormulaRegex"]
+    body = "\n".join(lines) + "\n"
+    f = common.LEAN / "QcelVerif" / "Gen" / "FormulaRegex.lean"
+    f.parent.mkdir(exist_ok=True)
+    if not f.exists() or f.read_text() != body:
+        f.write_text(body)
+
+
+TRANSLATORS = [regen_periodic_table, gen_formula_regex]
 THEOREMS = [
     ("QcelVerif.Fragments.grouped_atoms_conserved", "group_fragments=True: the atoms handed to the constructor are exactly the atoms of the real fragments then of the ghost fragments, in the order requested (index by index); flags true.. then false..; new index lists have the sizes of the chosen fragments and concatenate to 0..n'-1"),
     ("QcelVerif.Fragments.ordered_atoms_conserved", "group_fragments=False, no atom in two fragments: atoms = the parent's atoms whose fragment is in real or ghost, in original order, each once; flag = (its fragment is in real)"),
@@ -83,14 +246,33 @@ THEOREMS = [
     ("QcelVerif.Fragments.nre_fragment_all_ghost", "a fragment of ghost atoms only has nuclear repulsion energy 0"),
     ("QcelVerif.Fragments.nre_append", "NRE of two blocks = NRE(A) + NRE(B) + the inter-block pair terms"),
     ("QcelVerif.Fragments.nre_not_additive", "per-fragment energies do NOT add up to the molecule's (concrete counter-example H|H); additivity is not claimed"),
+    # --- the two regexes of order_molecular_formula, taken from the source (Gen/FormulaRegex.lean) and run by the generic engine
+    ("QcelVerif.Regex.scan_skip", "engine findall (any AST): stepping over the text of a reported match resumes the scan right after it, with that text's last character before the cursor"),
+    ("QcelVerif.Regex.matchAt_eq_find", "engine findall (any AST): one search attempt at a cursor returns the first way to match, in backtracking order, that the must_advance rule does not reject (empty at the start when the previous match was empty)"),
+    ("QcelVerif.Regex.ms_rep_cls_head", "engine (any class, any lower bound): the first way through a greedy [class]{lo,} consumes the longest run of class characters; none when the run is shorter than lo"),
+    ("QcelVerif.Regex.ms_suffix", "engine (any AST): every way to match leaves the cursor on a suffix of the text it started on"),
+    ("QcelVerif.Regex.scan_pieces", "engine findall (any AST, any subject): the reported matches are consecutive non-overlapping pieces of the subject, in order (subject = gap ++ match ++ gap ++ match ... ++ tail)"),
+    ("QcelVerif.Formula.formula_regex_shape", "[regenerated from molecular_formula.py, rfl] the generated ASTs are CPython's parse trees of [A-Z][^A-Z]* and (\\D+)(\\d*) that the lemmas are about, used through re.findall resp. re.match, no groups resp. two, group 1 read as the key and group 2 as the count, pattern texts as in the source"),
+    ("QcelVerif.Formula.generated_formula_wf", "the generated ASTs repeat no nullable body (the engine's fuel never truncates a repetition)"),
+    ("QcelVerif.Formula.cutUpper_eq_findall", "for EVERY string: engine re.findall on the generated cut pattern returns exactly the chunks of the hand cutUpper, in order"),
+    ("QcelVerif.Formula.cut_join_iff", "for EVERY string: the validity test ''.join(matches) == formula on the engine's findall holds iff the hand cut leaves no unmatched prefix"),
+    ("QcelVerif.Formula.split_groups", "for EVERY string: engine re.match on the generated split pattern matches iff the text starts with a non-digit; then group 1 = the leading non-digits and group 2 = the digits that follow (possibly empty)"),
+    ("QcelVerif.Formula.splitCount_eq_match", "for EVERY string: re.match on the generated pattern + the two group reads + int() = the hand splitCount when the text starts with a non-digit, no match otherwise"),
+    ("QcelVerif.Formula.assert_never_fails", "for every formula string, re.match(<split>, chunk) succeeds on every chunk re.findall(<cut>, formula) returns: the `assert match_n` of line 29 cannot fire"),
+    ("QcelVerif.Formula.orderFormulaRe_eq", "for EVERY formula string and both orders: order_molecular_formula through the generated regexes (engine) = the hand model orderFormula; hand `none` = the ValueError of line 25"),
+    ("QcelVerif.Formula.parse_render_re", "parse_render restated over the generated regexes: findall/match (engine on the source's patterns) + the dict fold applied to render(tokens) give the tokens back (KeyOK keys, distinct, positive counts)"),
+    ("QcelVerif.Formula.order_formula_of_formula_re", "order_formula_of_formula restated over the generated regexes: all WFSym symbol lists, all o, o': order_molecular_formula(formula(syms, o), o') = formula(syms, o') character for character"),
+    ("QcelVerif.Formula.order_formula_periodic_re", "order_formula_periodic restated over the generated regexes: every list of periodic-table symbols, no hypothesis left"),
 ]
 TRUSTED_BASE = [
     "Lean 4.33 kernel; axioms per theorem audited on every run (subset of propext, Classical.choice, Quot.sound)",
-    "hand-written models Model/Fragments.lean (get_fragment both paths, defaults, nelectrons() and nelectrons(ifr), NRE pair sum for the molecule and for one fragment) and Model/Formula.lean (render, title, regex cuts, dict accumulation), tied by differential correspondence on the generated stream",
+    "hand-written models Model/Fragments.lean (get_fragment both paths, defaults, nelectrons() and nelectrons(ifr), NRE pair sum for the molecule and for one fragment) and Model/Formula.lean (render, title, dict accumulation; its two regex cuts are PROVED equal to the source's patterns run by the generic engine, see below), tied by differential correspondence on the generated stream; get_fragment(orient=True) results are compared with the model's index lists directly as well (geometry up to the rigid motion: pair distances within 1e-6)",
     "the constructor's charge/multiplicity validation is C05's model ChgMult.vfc (its own correspondence is C05's)",
     "symbols/masses/geometry are one per-atom payload list in the model (the code indexes the three arrays with the same index); the harness compares each array separately against the model's index list",
     "NRE theorems are over an arbitrary field and an abstract distance function; the driver evaluates the pair sum exactly over Rat on the distances numpy computed; float rounding of the implementation is bounded by a stated tolerance",
-    "formula strings: the theorems of Props/C15FormulaStr.lean are about the SAME executable String model the driver runs (render / cutUpper / splitCount / addCount / orderFormula / fromSymbols) — proved for all inputs under the stated hypothesis WFSym/KeyOK; that this hand-written model of the two regexes r'[A-Z][^A-Z]*' (findall) and r'(\\D+)(\\d*)' (match) and of str.title()/str(int)/int(str) behaves like CPython on ASCII text is tied by the differential streams fs/of (incl. every periodic-table symbol and free-form strings), not proved",
+    "formula strings: the theorems of Props/C15FormulaStr.lean are about the SAME executable String model the driver runs (render / cutUpper / splitCount / addCount / orderFormula / fromSymbols) — proved for all inputs under the stated hypothesis WFSym/KeyOK. The two regexes are now REGENERATED FROM THE SOURCE and PROVED: harness/c15.py:gen_formula_regex reads molecular_formula.py by `ast`, compares the whole body of order_molecular_formula with the transcribed shape (re.findall(<str>, formula); join test; for/re.match(<str>, match)/assert/group reads/int/dict +=; expansion; return) and refuses any other, and emits CPython's own parse trees of the two pattern literals + the group numbers read (Gen/FormulaRegex.lean, via harness/regex_gen.py); Props/C15Regex.lean proves for EVERY string that the generic engine's findall / match on those ASTs equal the hand cutUpper / splitCount and hence orderFormulaRe = orderFormula, and restates parse_render / order_formula_of_formula / order_formula_periodic over the generated regexes",
+    "generic regex engine Model/RegexEngine.lean (C06's, proved equal to its list-of-successes semantics) + Model/RegexFindall.lean (new: re.findall / finditer — leftmost non-overlapping matches, must_advance empty-match rule of CPython >= 3.7, transcribed from Modules/_sre/sre.c by hand): that engine + translator reproduce CPython's `re` on ASCII text is DIFFERENTIAL — three-way lines cut| / spl| / ofr| (CPython with the patterns and group numbers read from the tree under check, hand model, engine) on every formula string of the fs/of streams, near-miss strings and random ASCII, and fi| probe lines (11 patterns not from the source exercising empty matches, laziness, alternation, groups, \\b against re.finditer); non-ASCII text is outside (\\d, \\D are the ASCII parts of the Unicode categories)",
+    "str.title() / str(int) / int(str) of the hand model (titleChars, Nat.toDigits, digitsVal) behave like CPython on ASCII text: differential (fs/of/spl streams), not proved",
     "Gen/PT.lean is regenerated on every run from qcelemental/data/nist_2011_atomic_weights.py by C01's translator tools/gen_periodic.py (re-encoding only; its own cross-check is C01's); that a validated molecule's symbols are symbols of that table is C04/C06's business",
     "Lean core library facts about Nat.toDigits / String.toList / String order (Init.Data.Nat.ToString, Init.Data.String.Lemmas) — kernel-checked",
     "harness/c15.py generators and the Python oracle; periodic-table Z via qcelemental.periodictable (C01)",
@@ -98,7 +280,8 @@ TRUSTED_BASE = [
 ASSUMPTIONS = [
     "integer fragment charges and multiplicities (scope of C05's model)",
     "parents are validated molecules (fragments contiguous and ascending); real/ghost are disjoint lists of distinct valid fragment numbers, not both empty (overlap is generated as an error case for the correspondence only)",
-    "orientation (orient=True) is not modelled here (C16): checked by the oracle only — every non-geometric field (all serialised fields except geometry, and the derived per-atom attributes) identical to the orient=False result, pair distances equal index by index, NRE and electron counts unchanged",
+    "the orienting rotation itself (orient=True) is not modelled here (C16): the oriented result's symbols / masses / real / fragments / fragment charges / multiplicities / totals / electron counts are compared with the model's index lists exactly and its geometry with the parent's rows at the model's indices up to a rigid motion (pair distances within 1e-6), for both group_fragments values on every case; the oracle additionally demands every non-geometric field (all serialised fields except geometry, and the derived per-atom attributes) identical to the orient=False result, NRE and electron counts unchanged",
+    "order_molecular_formula on a formula with a count of four or more digits is not sent through the whole function (it materialises `count` copies of the symbol: 'C9999999999' exhausts memory) — such strings go through the cut/spl regex lines only",
     "ASCII symbols for the formula functions; the string-level theorems assume title-cased symbols of the shape [A-Z][a-z]* (discharged for the whole periodic table; any-case words of ASCII letters reduce to it); a key containing a digit, a second capital or a letter after a non-letter is outside them (counter-example in the Lean file)",
     "NRE additivity over fragments is false (nre_not_additive) and is not part of the property",
 ]
@@ -108,7 +291,9 @@ RULE = (
     "(5 fragments: sampled) x group_fragments on/off x orient on/off; a case is distinct by (parent hash, real, ghost, group, orient) and non-trivial when >=2 "
     "fragments are involved, or a ghost/charged/open-shell fragment is selected, or the outcome is an error. Formula: every multiset of size <=6 over a "
     "12-symbol alphabet (C H Ca Cl He Hf B Br N O Zn Ar; shuffled, random case) x both orders, + every symbol of qcelemental.periodictable.E alone with counts 1, 2 and a random "
-    "two/three-digit count and in random multisets over the whole table, + random formula strings for order_molecular_formula. Per-fragment calls: nelectrons(k) and "
+    "two/three-digit count and in random multisets over the whole table, + random formula strings for order_molecular_formula + near-miss strings (lower-case first letter, digit first, empty, 'CH3(OH)', "
+    "blanks, signs, leading zeros, control characters); every order_molecular_formula call goes three ways (CPython, hand model, regex-engine model); every distinct formula string seen + the near misses + random "
+    "ASCII strings (all 128 code points) go through re.findall / re.match three ways, the whole text and each chunk through the split; engine probes against re.finditer. Per-fragment calls: nelectrons(k) and "
     "nuclear_repulsion_energy(k) for every fragment of every parent (about a third of the multi-atom parent fragments mix real and ghost atoms; a forced-mixed parent stream) and of every heavy-checked child."
 )
 LEVEL_TEXT = (
@@ -116,10 +301,12 @@ LEVEL_TEXT = (
     "fragment only; not additive) / formula tokens AND formula strings: for all symbol lists of the shape [A-Z][a-z]* (every periodic-table symbol, decided over the "
     "regenerated table) the rendered string parses back through the modelled regex cuts to exactly the element counts (digits by a proved Nat<->decimal round trip) and "
     "order_molecular_formula is idempotent and converts between alphabetical and Hill order character for character. The model is tied to the code by exhaustive-"
-    "over-subsets differential runs on generated molecules and by the formula streams; that the hand model of the regexes/str.title/str(int) matches CPython, pydantic "
-    "construction, orientation and float arithmetic are differential only (partial)."
+    "over-subsets differential runs on generated molecules (orient=False AND orient=True results against the model's index lists) and by the formula streams. The two regexes of "
+    "order_molecular_formula are regenerated from the source on every run (CPython's parse trees, entry points, groups read; whole function body shape-checked) and the hand cuts are PROVED equal, for every "
+    "string, to a generic regex engine (match + findall) run on them, so the string-level theorems hold of the source's own patterns; that this engine reproduces CPython's re on ASCII, "
+    "str.title/str(int)/int(str), pydantic construction, orientation and float arithmetic are differential only (partial)."
 )
-TECHNIQUE = "Lean 4 proof of list/partition/sum theorems about a hand model + behavioural correspondence + independent oracle"
+TECHNIQUE = "Lean 4 proof of list/partition/sum theorems about a hand model + regexes regenerated from the source and proved equal to the hand cuts through a generic regex engine + behavioural correspondence + independent oracle"
 
 ALPHABET = ["C", "H", "Ca", "Cl", "He", "Hf", "B", "Br", "N", "O", "Zn", "Ar"]
 ELEMS = ["H", "H", "H", "He", "Li", "Be", "B", "C", "C", "N", "O", "O", "F", "Ne", "Na", "Mg", "Al", "Si", "P", "S", "Cl", "Ar", "K", "Ca", "Fe", "Cu", "Zn", "Br", "Kr", "I", "Xe", "Au", "U"]
@@ -570,8 +757,10 @@ def nongeom_fields(mol):
     return d
 
 
-def check_orient(ctx, out, spec, parent, P, R, G, group, child):
-    """orient=True: same atoms/flags/bookkeeping, geometry moved rigidly, NRE unchanged"""
+def check_orient(ctx, out, spec, parent, P, R, G, group, child, pend=None):
+    """orient=True: same atoms/flags/bookkeeping, geometry moved rigidly, NRE unchanged; and (pend) the oriented result itself
+    against the model's prediction for (parent, real, ghost, group) — index lists of symbols / masses / geometry (the latter up
+    to the rigid motion), real, fragments, charges, multiplicities, totals, electron counts"""
     case = {"type": "fragment", "spec": spec, "real": R, "ghost": G, "group": group, "orient": True}
     out.evaluations += 1
     out.count("orient:True")
@@ -585,6 +774,12 @@ def check_orient(ctx, out, spec, parent, P, R, G, group, child):
         return
     out.nontrivial((parent.get_hash()[:10], tuple(R), tuple(G), group, "orient"))
     A, B = mol_parts(child), mol_parts(res[1])
+    if pend is not None:
+        line = "gf|{}|{}|{}|{}".format("1" if group else "0", ",".join(map(str, R)), ",".join(map(str, G)), mol_fields(parent))
+        _, rest_o = canon_child(res[1])
+        pend.add(line, "gf_ok_orient", (B["symbols"], [frepr(x) for x in B["masses"]], B["geometry"], rest_o,
+                                        P["symbols"], [frepr(x) for x in P["masses"]], P["geometry"]), case)
+        out.count("orient:compared_with_model")
     for key in ("symbols", "masses", "real", "fragments", "fc", "fm", "c", "m"):
         if A[key] != B[key]:
             viol("oracle:orient", "orient=True changes " + key, B[key], A[key])
@@ -690,6 +885,117 @@ def check_parent(ctx, out, pend, spec, parent, P):
 
 
 # --------------------------------------------------------------------------------------
+# the two regexes of order_molecular_formula: CPython / hand model / generic engine on the generated AST
+
+
+def hx(s):
+    return s.encode("ascii").hex()
+
+
+def add_of(pend: Pending, order, f, kind, payload, case):
+    """one order_molecular_formula call, three ways: CPython's answer against the hand model (`of`) and against the model that
+    runs the generic regex engine on the ASTs generated from the source (`ofr`)"""
+    pend.add("of|{}|{}".format(order, f), kind, payload, case)
+    pend.add("ofr|{}|{}".format(order, f), kind, payload, case)
+    seen = getattr(pend, "regex_texts", None)
+    if seen is None:
+        seen = pend.regex_texts = {}
+    seen.setdefault(f, case)
+
+
+NEAR_MISS = [
+    "", "c", "cH4", "hCl", "h2O", "2H", "12", "0C", "2", "CH3(OH)", "C6H5(CH3)", "(OH)2", "C H", " CH4", "CH4 ", "C-H", "Na+", "Cl-",
+    "C007", "C0", "C00", "H010", "C1", "C12H22O11", "HHHH", "CHCl3", "ClCH", "cl", "CL", "cL2", "C2h5", "C2H5oh", "H2o", "X", "Xx9y",
+    "C\n", "C\nH", "\nC", "C\t2", "C2\n3", "C.5", "C1.5H", "C_2", "A1B2C3", "Z9", "C9999999999", "C2H", "C22H", "C2 2", "C2x2", "C2xH2",
+    "C[13]", "D2O", "T", "Uue3", "UUE", "uue", "Cl2Ca", "He@", "~", "C~2", "\x7f", "C\x7f2", "\x00C", "C\x002", "[A-Z]", "(\\D+)",
+]
+
+
+def regex_site_or_none(out):
+    try:
+        return formula_regex_site()
+    except Exception as e:  # noqa  (the translator has already reported the broken tie; the streams below still run three-way on `of`)
+        out.notes.append("formula_regex_site unavailable (%s: %s): cut/spl lines not generated" % (type(e).__name__, e))
+        return None
+
+
+def regex_case(out: Outcome, pend: Pending, site, text, case):
+    """`cut|`, `spl|` lines for one ASCII text: CPython (patterns and group numbers as read from the tree under check) vs the
+    hand cuts vs the engine"""
+    out.evaluations += 1
+    out.count("regex:texts")
+    ms = re.findall(site["cut"], text)
+    if "".join(ms) != text:
+        out.count("regex:join_test_fails")
+    out.nontrivial(("re", text))
+    pend.add("cut|" + hx(text), "cut", (text, ms), dict(case, text=text))
+    for chunk in [text] + [m for m in ms if isinstance(m, str)]:
+        m = re.match(site["split"], chunk)
+        if m is None:
+            exp = None
+            out.count("regex:split_no_match")
+        else:
+            g_name, g_cnt = m.group(site["name"]), m.group(site["count"])
+            exp = (g_name, g_cnt, None if (g_name is None or g_cnt is None) else (1 if g_cnt == "" else int(g_cnt)))
+        pend.add("spl|" + hx(chunk), "spl", (chunk, exp), dict(case, text=chunk))
+
+
+def probe_lines(ctx, out: Outcome, pend: Pending):
+    """engine `finditer` against CPython's on patterns that exercise the empty-match rule (not from the source)"""
+    rng = ctx.rng
+    fixed = ["", "x", "xx", "ax", "xa", "axxb", "ab", "abab", "aab", "b", "ba", "a1b22", "12a", "a b", "Cl2x", "CH3(OH)", "xxyz", "yxy", "xy", "_a ", "Zn2Cu"]
+    for k, pat in enumerate(FINDALL_PROBES):
+        rx = re.compile(pat)
+        texts = list(fixed) + ["".join(rng.choice("axby1 Z_2") for _ in range(rng.randint(0, 7))) for _ in range(ctx.scale(25, 250))]
+        for t in texts:
+            out.evaluations += 1
+            out.count("regex:probe_lines")
+            exp = ",".join("s" + hx(m.group(0)) + "".join("/" + ("N" if g is None else "s" + hx(g)) for g in m.groups()) for m in rx.finditer(t))
+            pend.add("fi|{}|{}".format(k, hx(t)), "probe", exp, {"type": "probe", "pattern": pat, "text": t})
+
+
+def regex_streams(ctx, out: Outcome, pend: Pending):
+    site = regex_site_or_none(out)
+    rng = ctx.rng
+    # near misses go through the whole function three ways as well
+    from qcelemental.molutil import order_molecular_formula
+
+    for f in NEAR_MISS:
+        if "|" in f or not all(32 <= ord(ch) < 127 for ch in f) or re.search(r"\d{4}", f):
+            continue  # the `of` line carries raw text: control characters go through cut/spl (hex) only; so do huge counts
+            #           (order_molecular_formula materialises `count` copies of the symbol: 'C9999999999' exhausts memory)
+        for order in ("alphabetical", "hill"):
+            case = {"type": "order_formula", "formula": f, "order": order}
+            out.evaluations += 1
+            try:
+                g = ("str", order_molecular_formula(f, order))
+            except Exception as e:  # noqa
+                g = ("str_err", err_class(e))
+            out.count("order_formula_near_miss:" + ("ok" if g[0] == "str" else g[1]))
+            out.nontrivial(("of", f, order))
+            add_of(pend, order, f, g[0], g[1], case)
+    if site is None:
+        return
+    texts = dict(getattr(pend, "regex_texts", {}))
+    for f in NEAR_MISS:
+        texts.setdefault(f, {"type": "regex", "source": "near-miss"})
+    # random ASCII (all 128 code points, letters and digits favoured)
+    for _ in range(ctx.scale(400, 4000)):
+        n = rng.randint(0, 9)
+        t = "".join(rng.choice("CHONClaehlr0123456789") if rng.random() < 0.8 else chr(rng.randrange(128)) for _ in range(n))
+        texts.setdefault(t, {"type": "regex", "source": "random-ascii"})
+    cap = ctx.scale(6000, 60000)
+    items = list(texts.items())
+    if len(items) > cap:
+        keep = [it for it in items if it[1].get("type") != "formula"]
+        rest = [it for it in items if it[1].get("type") == "formula"]
+        items = keep + rng.sample(rest, max(0, cap - len(keep)))
+    for t, case in items:
+        regex_case(out, pend, site, t, case)
+    probe_lines(ctx, out, pend)
+
+
+# --------------------------------------------------------------------------------------
 # formula streams
 
 
@@ -718,7 +1024,7 @@ def formula_case(out: Outcome, pend: Pending, syms, order):
         except Exception as e:  # noqa
             out.violations.append(Finding("oracle:formula_reorder", case, observed=err_class(e), detail="order_molecular_formula raised on a formula produced by the library"))
             continue
-        pend.add("of|{}|{}".format(o2, f), "str", g, case)
+        add_of(pend, o2, f, "str", g, case)
         want = f if o2 == order.lower() else molecular_formula_from_symbols(syms, o2)
         if g != want:
             out.violations.append(Finding("oracle:formula_reorder", case, observed=g, expected=want,
@@ -790,11 +1096,89 @@ def formula_streams(ctx, out: Outcome, pend: Pending):
             g = ("str_err", err_class(e))
         out.count("order_formula:" + ("ok" if g[0] == "str" else g[1]))
         out.nontrivial(("of", f, order))
-        pend.add("of|{}|{}".format(order, f), g[0], g[1], case)
+        add_of(pend, order, f, g[0], g[1], case)
 
 
 # --------------------------------------------------------------------------------------
 # compare with the model
+
+
+def _items(s):
+    return [] if s == "" else [bytes.fromhex(x[1:]).decode("ascii") if x[:1] == "s" else None for x in s.split(",")]
+
+
+def compare_cut(text, ms, ml):
+    """`ok <hand prefix>|<hand chunks>|<engine findall>` against CPython's re.findall(<cut>, text)"""
+    if not ml.startswith("ok "):
+        return (ms, ml)
+    parts = ml[3:].split("|")
+    if len(parts) != 3:
+        return (ms, ml)
+    try:
+        pre = bytes.fromhex(parts[0][1:]).decode("ascii")
+        hand, eng = _items(parts[1]), _items(parts[2])
+    except Exception:
+        return (ms, ml)
+    if eng != ms:
+        return (ms, "regex engine findall on the generated AST: %r" % (eng,))
+    if hand != ms:
+        return (ms, "hand cutUpper chunks: %r" % (hand,))
+    if pre + "".join(hand) != text or (pre == "") != ("".join(ms) == text):
+        return (text, "hand cutUpper: unmatched prefix %r + chunks %r" % (pre, hand))
+    return None
+
+
+def compare_spl(chunk, exp, ml):
+    """`ok <hand name>:<hand n>|<engine>` against CPython's re.match(<split>, chunk) and the two group reads"""
+    if not ml.startswith("ok ") or "|" not in ml:
+        return (exp, ml)
+    hand, _, eng = ml[3:].partition("|")
+    try:
+        hname_hex, _, hn = hand.partition(":")
+        hname = bytes.fromhex(hname_hex[1:]).decode("ascii")
+    except Exception:
+        return (exp, ml)
+    if exp is None:
+        # no match: the engine must say so; the (total) hand split reads an empty name there
+        if eng != "none":
+            return ("no match", "regex engine: " + eng)
+        if hname != "":
+            return ("no match", "hand splitCount name %r" % hname)
+        return None
+    g_name, g_cnt, n = exp
+    want = "{}:{}:{}".format("N" if g_name is None else "s" + hx(g_name), "N" if g_cnt is None else "s" + hx(g_cnt),
+                             "X" if n is None else "s{}:{}".format(hx(g_name), n))
+    if eng != want:
+        return (want, "regex engine: " + eng)
+    if n is not None and (hname != g_name or hn != str(n)):
+        return ((g_name, n), "hand splitCount: (%r, %s)" % (hname, hn))
+    return None
+
+
+def compare_orient(payload, ml):
+    """get_fragment(..., orient=True) against the model's index lists: symbols, masses, real, fragments, charges, multiplicities,
+    totals and electron counts exactly; geometry = the parent's rows at the model's indices up to a rigid motion (pair distances)"""
+    syms_c, masses_c, geom_c, rest_c, psyms, pmasses, pgeom = payload
+    if not ml.startswith("ok "):
+        return ("ok ...", ml)
+    ids, _, rest_m = ml[3:].partition("|")
+    try:
+        idx = [int(i) for i in ids.split(",") if i != ""]
+        es, em, eg = [psyms[i] for i in idx], [pmasses[i] for i in idx], np.array([pgeom[i] for i in idx])
+    except Exception:
+        return (syms_c, "model atom ids " + ids)
+    if es != syms_c:
+        return (syms_c, "symbols at the model's atom ids %s: %s" % (ids, es))
+    if em != masses_c:
+        return (masses_c, "masses at the model's atom ids %s: %s" % (ids, em))
+    if rest_m != rest_c:
+        return (rest_c, rest_m)
+    gc = np.array(geom_c)
+    da = np.linalg.norm(gc[:, None, :] - gc[None, :, :], axis=2)
+    db = np.linalg.norm(eg[:, None, :] - eg[None, :, :], axis=2)
+    if da.shape != db.shape or not np.allclose(da, db, rtol=0, atol=1e-6):
+        return ("pair distances of the oriented geometry", "pair distances of the parent's rows at the model's atom ids " + ids)
+    return None
 
 
 def compare(ctx, out: Outcome, pend: Pending):
@@ -836,6 +1220,17 @@ def compare(ctx, out: Outcome, pend: Pending):
         elif kind == "str_err":
             if ml != "err " + payload:
                 bad = ("err " + payload, ml)
+        elif kind == "cut":
+            text, ms = payload
+            bad = compare_cut(text, ms, ml)
+        elif kind == "spl":
+            chunk, exp = payload
+            bad = compare_spl(chunk, exp, ml)
+        elif kind == "probe":
+            if ml != "ok " + payload:
+                bad = (payload, ml)
+        elif kind == "gf_ok_orient":
+            bad = compare_orient(payload, ml)
         if bad is not None:
             out.mismatches.append(Finding("mismatch", dict(case, line=line), observed=bad[0], expected=bad[1], detail="implementation vs Lean model (%s)" % kind))
 
@@ -881,7 +1276,7 @@ def run_parent(ctx, out, pend, spec, pairs_limit=None, orient_every=1):
             heavy = (n % 3 == 0) or len(pairs) <= 60
             child = check_extraction(ctx, out, pend, spec, parent, P, R, G, group, heavy=heavy)
             if child is not None and (n % orient_every == 0):
-                check_orient(ctx, out, spec, parent, P, R, G, group, child)
+                check_orient(ctx, out, spec, parent, P, R, G, group, child, pend)
     # overlapping request: correspondence of the refusal
     if nfr >= 1:
         k = ctx.rng.randrange(nfr)
@@ -902,6 +1297,7 @@ def run(ctx: Ctx) -> Outcome:
     for _ in range(ctx.scale(30, 200)):
         run_parent(ctx, out, pend, gen_parent_spec(rng, rng.choice([1, 2, 2, 3]), force_mixed=True))
     formula_streams(ctx, out, pend)
+    regex_streams(ctx, out, pend)
     compare(ctx, out, pend)
     out.exhaustive = False
     out.notes.append("per parent with <=4 fragments: all ordered disjoint (real, ghost) pairs x group on/off x orient on/off; 5 fragments sampled")
@@ -918,12 +1314,16 @@ def replay(ctx: Ctx, case) -> Outcome:
         P = mol_parts(parent)
         child = check_extraction(ctx, out, pend, case["spec"], parent, P, case["real"], case["ghost"], case["group"], heavy=True)
         if child is not None:
-            check_orient(ctx, out, case["spec"], parent, P, case["real"], case["ghost"], case["group"], child)
+            check_orient(ctx, out, case["spec"], parent, P, case["real"], case["ghost"], case["group"], child, pend)
     elif t == "parent":
         parent = build(case["spec"])
         check_parent(ctx, out, pend, case["spec"], parent, mol_parts(parent))
     elif t == "formula":
         formula_case(out, pend, case["symbols"], case["order"])
+        site = regex_site_or_none(out)
+        if site is not None:
+            for f, c in list(getattr(pend, "regex_texts", {}).items()):
+                regex_case(out, pend, site, f, c)
     elif t == "order_formula":
         from qcelemental.molutil import order_molecular_formula
 
@@ -932,6 +1332,17 @@ def replay(ctx: Ctx, case) -> Outcome:
         except Exception as e:  # noqa
             g = ("str_err", err_class(e))
         out.evaluations += 1
-        pend.add("of|{}|{}".format(case["order"], case["formula"]), g[0], g[1], case)
+        add_of(pend, case["order"], case["formula"], g[0], g[1], case)
+        site = regex_site_or_none(out)
+        if site is not None:
+            regex_case(out, pend, site, case["formula"], case)
+    elif t == "regex":
+        site = regex_site_or_none(out)
+        if site is not None:
+            regex_case(out, pend, site, case["text"], {"type": "regex"})
+    elif t == "probe":
+        rx = re.compile(case["pattern"])
+        exp = ",".join("s" + hx(m.group(0)) + "".join("/" + ("N" if g is None else "s" + hx(g)) for g in m.groups()) for m in rx.finditer(case["text"]))
+        pend.add("fi|{}|{}".format(FINDALL_PROBES.index(case["pattern"]), hx(case["text"])), "probe", exp, case)
     compare(ctx, out, pend)
     return out
